@@ -722,7 +722,7 @@ def run_c19(ctx, g):
         both += [(dict(c, ppqn=48), l) for c, l in both if c["ppqn"] == 24]
         for c, letters in both:
             c = with_nbins(c)
-            full = (4 if c["ppqn"] == 24 else 3) if not ctx.thorough else 5
+            full = (4 if c["ppqn"] == 24 else 3) if not ctx.thorough else (5 if c["ppqn"] == 24 else 4)
             for ln in range(1, full + 1):
                 for st in itertools.product(letters, repeat=ln):
                     cases.append((len(cases), c, list(st), None))
